@@ -231,6 +231,16 @@ func buildQuery(name string, qtype uint16, id uint16, do, cd, noedns bool, ecs s
 // serveDecoded serves a message through the decoded entry.
 func (rn *runner) serveDecoded(label, client, proto string, m *dns.Msg) (Step, bool) {
 	res := rn.st.ServeMsg(client, proto, m)
+	if res.Wrote && len(res.Raw) == 0 {
+		// The recording transport counts a WriteMsg whose Pack failed (e.g. a reply that
+		// cannot fit 65535 octets: a 253-octet owner repeated over a big answer) as a write
+		// of zero bytes. A real transport sends nothing in that case — exactly what the
+		// byte path's "no write" means — so this is "not written", not a difference.
+		res.Wrote = false
+		if res.Writes > 0 {
+			res.Writes--
+		}
+	}
 	s := Step{Label: label, Reply: canonReply(res.Wrote, res.Writes, res.Raw, res.Panic), Decoded: true, Rung: "decoded-entry"}
 	return s, rn.finishStep(&s)
 }
